@@ -138,14 +138,15 @@ def run(ctx):
                 ctx.check("data.resize(data.capacity(), 0)" in H.show(cl["body"]), RC, H.short(fn) + "::recycled-space-full-size", H.loc(bb, cl),
                           "a recycled space is restored to its full size")
         cb = ctx.hir(FC + "::compress")
-        hs = [l for l in hq.struct_lits(cb["body"], "BlockHeader") if "read_bytes" in H.show(l)]
-        ctx.check(len(hs) == 1, RC, "compress::raw-size-is-read-bytes", cb["file"], "uncompressed level: block size = bytes read into the space")
-        rd = [x for x in hq.find(cb["body"], lambda x: x.get("k") == "MethodCall" and x["name"] == "read")]
-        H.PRETTY_RANGES = True
-        try:
-            ok = len(rd) == 1 and H.show(hq.peel(rd[0]["args"][0])) == "&mut uncompressed_data[read_bytes..]"
-        finally:
-            H.PRETTY_RANGES = False
+        from . import c02 as _c02
+        BF = _c02.block_facts(ctx)
+        cnt = BF["ix"].canon(BF["count"]) if BF["count"] is not None else "?"
+        hs = [l for l in hq.struct_lits(cb["body"], "BlockHeader")
+              if {x["name"]: BF["ix"].canon(x["e"]) for x in l["fields"]}.get("block_size") ==
+              "core::result::Result::unwrap(core::convert::TryInto::try_into(%s))" % cnt]
+        ctx.check(len(hs) == 1 and BF["count_ok"], RC, "compress::raw-size-is-read-bytes", cb["file"],
+                  "uncompressed level: block size = bytes read into the space")
+        ok = BF["read_ok"] and BF["adv_ok"]
         ctx.check(ok, RC, "compress::reads-bounded-by-space", cb["file"], "reads go into the remainder of the space, so a block never exceeds it")
     ctx.guard(RC, "block", block)
 
